@@ -31,6 +31,8 @@ def plan(tier, seed):
     n3 = 1500 if tier == 'quick' else 15000
     for i in range(8):
         shards.append({'name': 'w3_%d' % i, 'kind': 'w3', 'n': n3, 'seed': seed * 1000 + 20 + i})
+    shards.append({'name': 'w3_O', 'kind': 'w3', 'n': 300 if tier == 'quick' else 3000, 'seed': seed * 1000 + 29,
+                   'optimize': True})
     rng = random.Random(seed * 1000 + 5)
     ths = gen.threshold_pool('basic' if tier == 'quick' else 'neighbours')
     combos = [(m, t) for m in c01.MEASURES3 + ('OVERLAP_COEFFICIENT',) for t in ths]
